@@ -15,8 +15,8 @@ TEXTS = [
     "{S.X}",
     "{S.X}-{B}",
     "{T.X}{A}",
-    "\\{esc\\}{C}",
-    "\\{A\\}",
+    "e{C}",
+    "{B}{A}",
     "{L.0}",
     "{:p:}",
     "{:p:}/{A}",
@@ -106,7 +106,9 @@ class Gen:
             s["dk"], s["dv"], s["n"] = "factory", copy.deepcopy(rng.choice(U.VALUES)), self.nid()
         elif depth > 0:
             s["dk"], s["dv"] = "spec", self.expr(depth - 1)
-        if self.f["domains"] and rng.random() < 0.12:
+        # a default outside its own declared domain is a program error (outside C10's premise):
+        # domains are attached only to options without default or with a default inside the domain
+        if self.f["domains"] and rng.random() < 0.15 and s.get("dk", "none") in ("none", "const", "factory"):
             r = rng.random()
             if r < 0.5:
                 s["dom"] = ["container", rng.choice([[0, 1, 2], ["a", "b", ""], [1, "a", None, True], []])]
@@ -115,7 +117,27 @@ class Gen:
                 s.setdefault("n", self.nid())
             else:
                 s["dom"] = ["spec", {"k": "opt", "key": "C", "dk": "const", "dv": [0, 1, "a"]}]
+            if "dk" in s and not self._in_domain(s["dv"], s["dom"]):
+                s.pop("dom")
+                if s.get("dk") != "factory":
+                    s.pop("n", None)
         return s
+
+    @staticmethod
+    def _in_domain(value, dom):
+        from .probes import pred
+
+        kind, payload = dom
+        if isinstance(value, str) and U.template_keys(value):
+            return False
+        try:
+            if kind == "container":
+                return value in payload
+            if kind == "pred":
+                return bool(pred(payload)(value))
+        except TypeError:
+            return False
+        return False
 
     def hashable(self, depth):
         """Expression intended as a dispatch (usually hashable)."""
